@@ -1,5 +1,5 @@
 (* C35 — lemmas about the session-token model of Session.v *)
-From Coq Require Import List NArith Bool Lia.
+From Coq Require Import List ZArith NArith Bool Lia.
 From Coq Require Import ZifyBool ZifyNat ZifyN.
 From SopVerif Require Import Session.
 Import ListNotations.
@@ -208,30 +208,30 @@ Section Proofs.
   Proof.
     intros s t n1 n2 s' u ro (HA & HB & HC) Hnf Hle Hv. unfold validate in Hv.
     destruct (parse' (secret s) t n1) as [c|e] eqn:P.
-    - inversion Hv; subst. clear Hv.
+    - injection Hv as Hs' Hu' Hr'. subst s' u ro.
       destruct t as [h p sg|b]; [|cbn in P; discriminate].
       assert (Hsig : sg = sig_of' (secret s) h p).
       { unfold parse in P. destruct (bytes_eqb sg (sig_of' (secret s) h p)) eqn:E; [apply bytes_eqb_eq; exact E|cbn in P; discriminate]. }
       destruct (Hnf Hsig) as (i & Hin & Hsec & Hmsg).
       destruct (HB i Hin) as (c0 & Hacc & Hm0 & Hsub & Hrole & Hexp).
-      rewrite Hm0 in Hmsg. inversion Hmsg; subst h p.
+      rewrite Hm0 in Hmsg. inversion Hmsg; subst h p. subst sg.
       assert (Ht : TSigned header (b64 (cenc c0)) (sig_of' (secret s) header (b64 (cenc c0))) = sign' (i_secret i) c0).
       { unfold sign. rewrite Hsec. reflexivity. }
       pose proof (parse_sign (i_secret i) c0 _ n1 c Ht) as Hc. rewrite Hsec in Hc. specialize (Hc P). subst c.
       assert (Hlt : unix n1 < unix (i_exp i)).
-      { unfold parse in P. rewrite <- Hsig in P. rewrite bytes_eqb_refl in P. cbn [negb] in P.
+      { unfold parse in P. rewrite bytes_eqb_refl in P. cbn [negb] in P.
         rewrite b64_rt, c_rt in P. destruct (negb _); [discriminate|].
         destruct (c_exp c0 <=? unix n1) eqn:El; [discriminate|]. rewrite Hexp in El. lia. }
-      exists i. split; [exact Hin|]. split; [left; rewrite Hacc; symmetry; exact Ht|].
+      exists i. split; [exact Hin|]. split; [left; rewrite Hacc; exact Ht|].
       split; [auto|]. split; [auto|]. split.
       + destruct (N.le_gt_cases n1 (i_exp i)) as [Hok|Hgt]; [exact Hok|].
         pose proof (unix_mono (i_exp i) n1 ltac:(lia)). lia.
-      + left. split; [rewrite Hacc; symmetry; exact Ht|]. split; [exact Hsec|exact Hlt].
+      + left. split; [rewrite Hacc; exact Ht|]. split; [exact Hsec|exact Hlt].
     - destruct (find (store s) t) as [r|] eqn:Ft; [|inversion Hv].
-      destruct (r_exp r <? n2) eqn:El; inversion Hv; subst. clear Hv.
+      destruct (r_exp r <? n2) eqn:El; [inversion Hv|]. injection Hv as Hs' Hu' Hr'. subst s' u ro.
       destruct (HA t r Ft) as (i & Hin & Hk & Hu & Hr & He).
       exists i. split; [exact Hin|]. split; [exact Hk|]. split; [exact Hu|]. split; [exact Hr|].
-      split; [lia|]. right. exists r. split; [exact Ft|lia].
+      split; [lia|]. right. exists r. split; [first [exact Ft|reflexivity]|lia].
   Qed.
 
   (* ---- revocation / rotation remove the session from the table ---- *)
@@ -278,7 +278,8 @@ Section Proofs.
     destruct (mk_access' (secret s) (r_user r) (r_role r) n2 (r_exp r) (ctr s)) as [a0 m] eqn:E.
     destruct (find (store s) a0); [inversion H|].
     destruct (find _ (TOpaque (nonce (ctr s + 1)))); [inversion H|].
-    inversion H; subst. exists r, m. repeat split; try reflexivity. lia.
+    inversion H; subst. exists r, m. apply N.ltb_ge in El.
+    split; [reflexivity|]. split; [exact El|]. split; [first [exact E|reflexivity]|]. repeat split; reflexivity.
   Qed.
 
   (* the old refresh token (more precisely: the presented token, and both keys of its session) is gone *)
